@@ -26,7 +26,8 @@ Sigma == << <<"var", "a">>, <<"var", "b">>, <<"num", 1>>, <<"not">>, <<"and">>, 
 Pieces == << <<"a">>, <<"n">>, <<"d">>, <<"a","n">>, <<"a","n","d">>, <<"i","n">>, <<"i">>, <<"f">>, <<"i","f">>,
              <<"e","q">>, <<"n","u">>, <<"<">>, <<"=">>, <<">">>, <<"-">>, <<"!">>, <<"&">>, <<"|">>, <<"^">>,
              <<"#">>, <<"*">>, <<"+">>, <<"[">>, <<"]">>, <<"(">>, <<")">>, <<",">>, <<" ">>, <<"\n">>,
-             <<"\"">>, <<"$">>, <<"{">>, <<"}">>, <<"'">>, <<"1">>, <<"0">>, <<"_">>, <<"é">>, <<"€">>, <<"٣">> >>
+             <<"\"">>, <<"$">>, <<"{">>, <<"}">>, <<"'">>, <<"1">>, <<"0">>, <<"_">>, <<"é">>, <<"€">>, <<"٣">>,
+             <<"A">>, <<"N">>, <<"I">>, <<"t">>, <<"r","u","e">>, <<"o","r">>, <<"x">> >>
 
 RECURSIVE Flatten(_)
 Flatten(ps) == IF ps = <<>> THEN <<>> ELSE Pieces[Head(ps)] \o Flatten(Tail(ps))
